@@ -187,8 +187,13 @@ def int_typed(tg):
         out = Textgrid(as_int(tg.minTimestamp), as_int(tg.maxTimestamp))
         for t in tg.tiers:
             t2 = t.new()
+            ents = list(t2.entries)
+            if ents and whole(t.maxTimestamp) and ents[-1][-2] == t.maxTimestamp and (len(ents) < 2 or ents[-2][-2] < t.maxTimestamp):
+                # the tier grows to its (whole-number) end when its last entry is inserted: the tier's own span is then an int as well
+                t2 = type(t)(t.name, [tuple(e) for e in ents[:-1]], t.minTimestamp, ents[-2][-2] if len(ents) > 1 else t.minTimestamp)
+                t2.insertEntry(tuple(as_int(v) for v in ents[-1][:-1]) + (ents[-1][-1],))
             for e in list(t2.entries):
-                if any(whole(v) for v in e[:-1]):
+                if any(whole(v) and not isinstance(v, int) for v in e[:-1]):
                     t2.deleteEntry(e)
                     t2.insertEntry(tuple(as_int(v) for v in e[:-1]) + (e[-1],))
             out.addTier(t2, reportingMode="silence")
@@ -210,8 +215,10 @@ def roundtrip(tg, data, work, fmt, blanks, keep, thr, k):
     smode = ("silence", "warning", "error" if clean else "silence", "silence")[(k // 3) % 4]
     omode = ("silence", "error", "warning", "silence", "error")[(k // 7) % 5]
     dmode = "rename" if (k // 5) % 3 == 0 else "error"
+    # option strings that are equal to the documented values without being the same objects (they came from a config file, argv ...)
+    fmt_arg, smode = ((fmt + "_")[:-1], (smode + "_")[:-1]) if k % 3 == 0 else (fmt, smode)
     try:
-        tg.save(fn1, fmt, blanks, None, None, thr, smode)
+        tg.save(fn1, fmt_arg, blanks, None, None, thr, smode)
     except Exception as e:
         rec = {"snap": snap.tg_snap(tg), "format": fmt, "blanks": blanks, "minT": None, "maxT": None, "thr": thr}
         if judgeable(rec) is None:
